@@ -203,9 +203,9 @@ Proof.
   - intro Hin; exists x; split; [exact Hin | apply Z.eqb_refl].
 Qed.
 
-Lemma call_okb_spec : forall cl, call_okb cl = true <-> call_ok cl.
+Lemma call_okb_spec : forall phase cl, call_okb phase cl = true <-> call_ok phase cl.
 Proof.
-  intros [[kind pre] cls]; unfold call_okb, call_ok; split.
+  intros phase [[kind pre] cls]; unfold call_okb, call_ok; split.
   - intro H; apply andb_true_iff in H; destruct H as [Hh Hr]; split.
     + intro Heq; rewrite Heq in Hh; rewrite Z.eqb_refl in Hh; discriminate.
     + intro Hpre; subst pre; simpl in Hr.
@@ -225,7 +225,7 @@ Proof.
     + exact H.
     + apply Z.leb_le; assumption.
     + apply Forall_forall; intros cl Hin. apply call_okb_spec.
-      match goal with Hf : forallb call_okb _ = true |- _ => rewrite forallb_forall in Hf; apply Hf; exact Hin end.
+      match goal with Hf : forallb (call_okb _) _ = true |- _ => rewrite forallb_forall in Hf; apply Hf; exact Hin end.
     + apply Z.eqb_eq; assumption.
   - intros [H1 H2 H3 H4]. repeat (apply andb_true_iff; split).
     + exact H1.
